@@ -93,6 +93,9 @@ class H:
             if not form:
                 raise Unsupported("empty expression")
             h = head(form)
+            if h is not None and any(isinstance(a, Expression) and head(a) == "unpack-iterable" for a in form[1:]) \
+                    and (h in BINOPS or h in CMPOPS or h in ("and", "or", "not", "bnot", "get")):
+                return self.shadow_call(h, form)
             m = getattr(self, "f_" + _pyname(h), None) if h is not None else None
             if h == ".":
                 m = self.f_dot
@@ -100,6 +103,10 @@ class H:
                 return m(form, *form[1:])
             if h in BINOPS:
                 return self.binop(h, list(form[1:]))
+            if h in CMPOPS:
+                return self.compare(h, list(form[1:]))
+            if h is not None and h.endswith("=") and h[:-1] in BINOPS and len(form) >= 3:
+                return self.augassign(h[:-1], form[1], list(form[2:]))
             if h is not None and self.expand is not None:
                 new = self.expand(form)
                 if new is not form:
@@ -224,6 +231,73 @@ class H:
                 acc = sg.op(desc, (lambda x, acc: lambda r: (r(acc), r(x)))(x, acc), [acc, x])
         sg.run()
         return sg.value(acc)
+
+    def shadow_call(self, h, form):
+        """A macro call containing #* falls back to the hy.pyops function of the same name with all arguments unchanged."""
+        from hy.reader import mangle
+        c = self.c
+        sg = Seg(self)
+        slots = self.call_slots(form[1:])
+        hs = [sg.child(f) for _, _, f in slots]
+        hl = sg._add(("load", "hy"), lambda r: c.load_user("hy"), [])
+        ha = sg.op(("attr", "pyops"), lambda r: (r(hl),), [hl])
+        hf = sg.op(("attr", mangle(h)), lambda r: (r(ha),), [ha])
+        hc = sg.op(("call",), lambda r: self.call_value(r(hf), slots, [r(x) for x in hs]), [hf] + hs)
+        sg.run()
+        return sg.value(hc)
+
+    def compare(self, h, args):
+        """Python's chained comparison a1 op a2 op ... an: operands left to right, each once, stopping at the first
+        false comparison (later operands are then not evaluated); one operand: evaluated, result True."""
+        c = self.c
+        if len(args) == 1:
+            self.eval(args[0])
+            return ("const", True)
+        if len(args) == 2:
+            l, r = self.args(args)
+            return c.op(("cmp", CMPOPS[h]), l, r)
+        left = self.eval(args[0])
+        res = None
+        for a in args[1:]:
+            right = self.eval(a)
+            res = c.op(("cmp", CMPOPS[h]), left, right)
+            if not c.truthy(res):
+                return res
+            left = right
+        return res
+
+    AGG = None
+
+    def augassign(self, op, target, values):
+        """(op= t a b ...) == t op= agg(a, b, ...), agg = the documented aggregator (hy.pyops docstrings)."""
+        c = self.c
+        agg = (self.AGG or {}).get(op, op)
+        if not isinstance(target, Symbol):
+            raise Unsupported("hysem: augmented assignment to a non-name")
+        # target and value are sibling children of one form: the load of the target and the evaluation of the value may
+        # come in either order (statements of the value are hoisted by the compiler); then one in-place operation, one store
+        from hy.reader import mangle
+        sg = Seg(self)
+        n = str(target)
+        if self.env.find(n) is None and mangle(n) not in c.uservals:
+            hl = sg._add(("load", mangle(n)), lambda r: self.symbol(target), [])
+        else:
+            hl = sg._add(None, lambda r: self.symbol(target), [])
+        hs = [sg.child(v) for v in values]
+        hv = hs[0]
+        if len(hs) > 1:          # rvalue = the documented aggregator folded over the extra arguments
+            desc = ("binop", BINOPS[agg])
+            if agg == "**":
+                hv = hs[-1]
+                for x in reversed(hs[:-1]):
+                    hv = sg.op(desc, (lambda x, acc: lambda r: (r(x), r(acc)))(x, hv), [x, hv])
+            else:
+                for x in hs[1:]:
+                    hv = sg.op(desc, (lambda x, acc: lambda r: (r(acc), r(x)))(x, hv), [hv, x])
+        ho = sg.op(("augop", BINOPS[op]), (lambda hv: lambda r: (r(hl), r(hv)))(hv), [hl, hv])
+        sg.run()
+        self.assign(target, sg.value(ho))
+        return NONE
 
     def f_not(self, form, x):
         return ("not", self.eval(x))
